@@ -532,7 +532,7 @@ spifconf_shell_expand(spif_charptr_t s)
     register spif_charptr_t tmp;
     register spif_charptr_t pbuff = s, tmp1;
     register spif_uint32_t j, k, l = 0;
-    spif_char_t newbuff[CONFIG_BUFF];
+    spif_charptr_t newbuff;
     spif_uint8_t in_single = 0, in_double = 0;
     spif_uint32_t cnt1 = 0, cnt2 = 0;
     const spif_uint32_t max = CONFIG_BUFF - 1;
@@ -540,9 +540,10 @@ spifconf_shell_expand(spif_charptr_t s)
 
     ASSERT_RVAL(s != NULL, (spif_charptr_t) NULL);
 
-#if 0
+    /* The scratch buffer lives on the heap.  Nested %-calls and backquotes recurse
+       into this function once per level, and a line-sized array in every frame
+       adds up to megabytes of stack for a deeply nested (but perfectly legal) line. */
     newbuff = (spif_charptr_t) MALLOC(CONFIG_BUFF);
-#endif
 
     for (j = 0; *pbuff && j < max; pbuff++, j++) {
         switch (*pbuff) {
@@ -642,6 +643,7 @@ spifconf_shell_expand(spif_charptr_t s)
                   if (l) {
                       libast_print_error("parse error in file %s, line %lu:  Mismatched parentheses\n", file_peek_path(), file_peek_line());
                       FREE(Command);
+                      FREE(newbuff);
                       return (spif_charptr_t) NULL;
                   }
                   /* (Drop the closing parenthesis.) */
@@ -676,7 +678,12 @@ spifconf_shell_expand(spif_charptr_t s)
                   for (pbuff++; *pbuff && *pbuff != '`' && l < max; pbuff++, l++) {
                       Command[l] = *pbuff;
                   }
-                  ASSERT_RVAL(l < CONFIG_BUFF, NULL);
+                  if (l >= CONFIG_BUFF) {
+                      /* (Cannot happen; the loop above stops at max.  But if it does, take the buffers along.) */
+                      FREE(Command);
+                      FREE(newbuff);
+                      ASSERT_NOTREACHED_RVAL(NULL);
+                  }
                   Command[l] = 0;
                   if (!*pbuff) {
                       /* No closing backquote.  Stay in front of the terminator. */
@@ -774,7 +781,10 @@ spifconf_shell_expand(spif_charptr_t s)
               newbuff[j] = *pbuff;
         }
     }
-    ASSERT_RVAL(j < CONFIG_BUFF, NULL);
+    if (j >= CONFIG_BUFF) {
+        FREE(newbuff);
+        ASSERT_NOTREACHED_RVAL(NULL);
+    }
     newbuff[j] = 0;
 
     D_PARSE(("spifconf_shell_expand(%s) returning \"%s\"\n", s, newbuff));
@@ -783,9 +793,7 @@ spifconf_shell_expand(spif_charptr_t s)
              strlen((char *) newbuff), j));
 
     strcpy((char *) s, (char *) newbuff);
-#if 0
     FREE(newbuff);
-#endif
     return (s);
 }
 
